@@ -316,7 +316,50 @@ def fresh_action_acc(payload):
     return acc
 
 
+ENV_ACTIONS = ["full", "mesh_only", "part_only", "value_pred", "cpu_list_2", "sortby_part", "level_le_2"]
+
+
+def env_probe(payload):
+    """a few loads, for discover_environment_reads()"""
+    from ..runner import Acc
+
+    spec = Spec({"actions": ENV_ACTIONS, "variant": 0})
+    ds = _load.new_dataset(spec.dir, spec.out.nout)
+    for a in ("full", "part_only", "value_pred"):
+        _load.call_load(ds, **action_kwargs(a, spec.out))
+    return Acc()
+
+
+def env_work(payload):
+    """Histories of a few kinds of load, to depth 3, inside an interpreter started with an environment variable the library reads: a
+    setting of the environment may change what a load prints or how it works, not whether its outcome depends on earlier loads. The
+    references are made first, in this same interpreter, each on a dataset of its own."""
+    import pickle
+
+    from ..runner import SerialPool
+
+    spec = Spec({"actions": ENV_ACTIONS, "variant": 0})
+    refs = {(0, a): spec._compute_fresh(a) for a in ENV_ACTIONS}
+    refs_file = os.path.join(scratch_dir(), "c15-env-references.pickle")
+    with open(refs_file, "wb") as f:
+        pickle.dump(refs, f)
+    _cov, acc = history.explore(SerialPool(), MOD, "loads", {"actions": ENV_ACTIONS, "variant": 0, "refs_file": refs_file}, 3, 1)
+    return acc
+
+
+def environment_replay(payload):
+    case = payload["case"]
+    if case.get("params", {}).get("refs_file") and not os.path.exists(case["params"]["refs_file"]):
+        case = dict(case, params={k: v for k, v in case["params"].items() if k != "refs_file"})
+    return [s for s, _ in history.replay_case(case)]
+
+
 def run(ctx):
+    from ..runner import discover_environment_reads, environment_acc
+
+    # environment variables the library looks up while loading, each set to "1" for a reduced exploration of its own
+    env_names = [n for n in discover_environment_reads(MOD, "env_probe", ctx.base()) if n not in ("HOME", "PATH", "PWD")]
+    env_accs = [environment_acc(MOD, "env_work", ctx.base(), f"{n}=1") for n in env_names[:4]]
     acts = ACTIONS if ctx.thorough else ACTIONS[:23]
     depth = 4 if ctx.thorough else 3
     und = 3 if ctx.thorough else 2
@@ -335,8 +378,9 @@ def run(ctx):
         accs.append(acc)
     from ..runner import Acc
 
-    acc = Acc.merged(accs)
+    acc = Acc.merged(accs + env_accs)
     cov = {
+        "environment_variables_read_by_the_library": env_names,
         "states": sum(c["states"] for c in covs),
         "transitions": sum(c["transitions"] for c in covs),
         "traces_validated_against_impl": sum(c["transitions"] for c in covs),
@@ -353,4 +397,8 @@ def run(ctx):
 
 
 def replay_sigs(case):
+    if case.get("environment"):
+        from ..runner import replay_in_environment
+
+        return replay_in_environment(MOD, case)
     return [s for s, _ in history.replay_case(case)]
